@@ -1,13 +1,19 @@
 /-
   Line handlers for C11 (grammar: harness/cmd/c11/main.go).
     kw <keyword>    → row of Gen.keywordTable ("<documented> <strictRejects>")
-    conv <D>        → "<nonstrict> <strict>"  (ok | error | panic)
+    conv <D>        → "<nonstrict> <strict>\t<reasons>"  (ok | error | panic)
+    fmtdoc <F>      → "<dedicated> <format keyword of the round-trip document>"   (getFormatSchema, FId.emitName)
+    fmt <F> <S> <V> → "<P> <V> <R>\t<reasons>"  P = FId.parses (C20's model of the dedicated schema's validator), V = the validator's
+                      verdict on the ORIGINAL document (the judge, echoed), R = rtFmtValid (bag name kept ∧ V ∧ exported pattern);
+                      "?" where C20 has no model of the recogniser (email, uri)
+    fmtpool <F>     → "1" (every mapped format must survive the sample pool of the general generator)
     inst <D> <J>    → "<P> <V> <R>\t<reasons>"  P = acceptsDecoded (fromJS d), V = jsValid d, R = jsValid (toDoc (fromJS d))
   A ROOT document `( node ( const M ) )` / `( node ( enum M* ) )` whose members include arrays / objects is read by `pDJ`
   and judged by `fromConstJ` / `fromEnumJ` + `CE.parse` (P, "!" = ParseAny panics) and `jsonEq` (V).
 -/
 import Gozod.Drv.C07
 import Gozod.Model.FromJson
+import Gozod.Model.FromJsonFormat
 import Gozod.Gen.KeywordTable
 import Gozod.Proofs.C11
 namespace Gozod.Drv.C11
@@ -322,7 +328,7 @@ partial def toJ1? : JS → Option J1
 /-- the case lies in the fragment of `c11_equiv_partial` (and of `c11_roundtrip`). -/
 def inFragment (d : JS) : Bool × Bool :=
   match toJ1? d with
-  | some j => (good cur j, good cur j && Gozod.C11.rt j)
+  | some j => (good cur j, good cur j && Gozod.C11.rt cur j)
   | none => (false, false)
 
 /-! ### root const / enum documents with array / object members -/
@@ -404,14 +410,53 @@ partial def intOnly : JS → Bool × Bool
     let okArr := !types.contains .array || names.contains "items"
     (okArr && rs.all (·.1), types.contains .integer || rs.any (·.2))
 
+/-- UTF-8 bytes of a code point (C20's recognisers read bytes). -/
+def utf8 (c : Nat) : List Nat :=
+  if c < 128 then [c]
+  else if c < 2048 then [192 + c / 64, 128 + c % 64]
+  else if c < 65536 then [224 + c / 4096, 128 + (c / 64) % 64, 128 + c % 64]
+  else [240 + c / 262144, 128 + (c / 4096) % 64, 128 + (c / 64) % 64, 128 + c % 64]
+
+def ob : Option Bool → String
+  | some b => b2s b
+  | none => "?"
+
 def handle : List String → String
+  | ["fmtdoc", n] =>
+    match decStr n with
+    | some name =>
+      match getFormatSchema (strOf name) with
+      | some f => "1 " ++ f.emitName
+      | none => "0 -"
+    | none => "bad-op"
+  | ["fmt", n, s, v] =>
+    match decStr n, decStr s with
+    | some name, some str =>
+      match getFormatSchema (strOf name) with
+      | some f =>
+        let bytes := (str.map utf8).flatten
+        let p := f.parses bytes
+        let r := rtFmtValid f (v == "1") bytes
+        let rs := (if f.nameKept then [] else ["name-internal"])
+          ++ (if f.c20.isNone then ["recogniser-unmodelled"] else [])
+        ob p ++ " " ++ v ++ " " ++ ob r ++ "\t" ++ ",".intercalate rs
+      | none => "not-a-mapped-format"
+    | _, _ => "bad-op"
+  | ["fmtpool", _] => "1"
   | ["kw", k] =>
     match Gozod.Gen.keywordTable.find? (fun r => r.kw == k) with
     | some r => b2s r.documented ++ " " ++ b2s r.strictRejects
     | none => "unknown-keyword"
   | "conv" :: ts =>
     match pD ts with
-    | some (d, []) => outcome (fromJS cur rejects false d) ++ " " ++ outcome (fromJS cur rejects true d)
+    | some (d, []) =>
+      -- a strict conversion that succeeds on `cur` but fails once the error of a property / additionalProperties
+      -- conversion is returned (C11-strict-property-error): the keyword WAS reached and recognised, then dropped
+      let dropped := (match fromJS cur rejects true d, fromJS { cur with strictProp := true } rejects true d with
+        | .ok _, .error (.unsupported _) => true
+        | _, _ => false)
+      outcome (fromJS cur rejects false d) ++ " " ++ outcome (fromJS cur rejects true d)
+        ++ "\t" ++ (if dropped then "property-error-dropped" else "")
     | _ =>
       match pDJ ts with
       | some (_, []) => "ok ok"        -- convertConst / convertEnum have no error path (and no strict-mode check of their own)
